@@ -51,6 +51,7 @@ type h2stream struct {
 	body     []byte
 	trailers []hpack.HeaderField
 	ended    bool // peer half closed
+	emptyEnd bool // our message on this stream ends with an empty DATA frame carrying END_STREAM
 	recvWin  int64
 	sendWin  int64
 	out      []byte // DATA still to send
@@ -105,7 +106,7 @@ type H2End struct {
 	// Violation sink (property C18)
 	Viol func(class, format string, a ...any)
 	// statistics
-	DataFrames, FlowChecks, Stalls, Grants, SizeUpdatesSeen, Continuations int
+	DataFrames, FlowChecks, Stalls, Grants, SizeUpdatesSeen, Continuations, EmptyEnds int
 	// callbacks
 	OnMessage func(e *H2End, st *h2stream) // a complete message (headers [+ body]) arrived
 	Kick      func()                       // there may be streams waiting for credit: (re)start the world's credit events
@@ -543,7 +544,10 @@ func (e *H2End) encode(fields []hpack.HeaderField) []byte {
 func (e *H2End) SendMessage(st *h2stream, fields []hpack.HeaderField, body []byte) {
 	ch := e.S.Ch
 	block := e.encode(fields)
-	endStream := len(body) == 0
+	// the message may end with an empty DATA frame that only carries END_STREAM (legal, and what some
+	// implementations do when they learn late that the body is complete)
+	st.emptyEnd = ch.Chance("seg", "h2emptyend", 1, 4)
+	endStream := len(body) == 0 && !st.emptyEnd
 	first := block
 	var rest []byte
 	if e.O.SplitHdr && len(block) > 1 {
@@ -590,6 +594,12 @@ func (e *H2End) pump() {
 	}
 	for _, id := range ids {
 		st := e.streams[id]
+		if len(st.out) == 0 && st.outEnd && !st.outDone {
+			_ = e.fr.WriteData(st.id, true, nil) // the empty final frame costs no credit
+			st.outDone = true
+			e.EmptyEnds++
+			continue
+		}
 		for len(st.out) > 0 {
 			n := int64(len(st.out))
 			if c := int64(e.O.Chunk[ch.Pick("seg", "h2chunk", len(e.O.Chunk))]); c > 0 && c < n {
@@ -608,7 +618,7 @@ func (e *H2End) pump() {
 				e.Stalls++
 				break
 			}
-			end := st.outEnd && int(n) == len(st.out)
+			end := st.outEnd && int(n) == len(st.out) && !st.emptyEnd
 			if e.O.Pad && n > 1 && ch.Chance("seg", "h2datapad", 1, 4) {
 				// padding counts against the windows too: 1 length byte + p padding bytes
 				p := int64(1 + ch.Pick("seg", "h2datapadlen", 20))
@@ -630,6 +640,11 @@ func (e *H2End) pump() {
 			if end {
 				st.outDone = true
 			}
+		}
+		if len(st.out) == 0 && st.outEnd && !st.outDone && st.emptyEnd {
+			_ = e.fr.WriteData(st.id, true, nil)
+			st.outDone = true
+			e.EmptyEnds++
 		}
 	}
 	e.flush()
